@@ -50,6 +50,8 @@ type c18Input struct {
 	lines []string
 	bytes []byte
 	offs  []int64 // compressed offset of the member holding record i
+	raw   []byte  // the uncompressed stream
+	cuts  []int   // cuts[j]: offset of record j in raw
 }
 
 // failAt fails every read at or beyond a byte offset.
@@ -138,6 +140,10 @@ func c18Run(c core.Case) *core.Result {
 		r.Count("cases_with_sq_fields_in_some_inputs", 1)
 	}
 	failInput, failRec := -1, -1
+	// corrupt: instead of an I/O fault the failing input holds a record the
+	// reader refuses (read name length 0) and can read on after; whatever the
+	// order, the merge must not end in a clean io.EOF after that.
+	corrupt := c.Int("fail") == 1 && rng.Intn(2) == 0
 	total, nonEmpty := 0, 0
 	for i, in := range ins {
 		n := rng.Intn(9)
@@ -206,6 +212,7 @@ func c18Run(c core.Case) *core.Result {
 		}
 		f := gen.FileFromData(rng, raw, cuts[:len(cuts)-1], 0, true)
 		in.bytes = f.Bytes
+		in.raw, in.cuts = raw, cuts
 		for j := range in.recs {
 			b, _ := f.VOffset(int64(cuts[j]))
 			in.offs = append(in.offs, b)
@@ -223,13 +230,22 @@ func c18Run(c core.Case) *core.Result {
 			failInput = -1
 		}
 	}
-	cfg := fmt.Sprintf("order=%s inputs=%d layout=%d records=%v fail=input %d at record %d", orderName, k, layout, func() []int {
+	if failInput < 0 {
+		corrupt = false
+	}
+	if corrupt {
+		in := ins[failInput]
+		raw := append([]byte(nil), in.raw...)
+		raw[in.cuts[failRec]+12] = 0 // l_read_name = 0: "invalid read name length"
+		in.bytes = gen.FileFromData(rand.New(rand.NewSource(c.Seed)), raw, in.cuts[:len(in.cuts)-1], 0, true).Bytes
+	}
+	cfg := fmt.Sprintf("order=%s inputs=%d layout=%d records=%v fail=input %d at record %d corrupt-record=%v", orderName, k, layout, func() []int {
 		var v []int
 		for _, in := range ins {
 			v = append(v, len(in.recs))
 		}
 		return v
-	}(), failInput, failRec)
+	}(), failInput, failRec, corrupt)
 	r.FP = core.Hash(cfg, c.Seed)
 	r.Nontrivial = nonEmpty >= 2 && total >= 3
 	r.Sample = map[string]any{"config": cfg, "merged_reference_order": merged}
@@ -238,7 +254,7 @@ func c18Run(c core.Case) *core.Result {
 	var fa *failAt
 	for i, in := range ins {
 		var src io.Reader = bytes.NewReader(in.bytes)
-		if i == failInput {
+		if i == failInput && !corrupt {
 			fa = &failAt{r: bytes.NewReader(in.bytes), at: in.offs[failRec]}
 			src = fa
 		}
@@ -316,6 +332,16 @@ func c18Run(c core.Case) *core.Result {
 			rec, err := m.Read()
 			if err != nil {
 				finalErr = err
+				if err != io.EOF {
+					// an input failed: however often the caller reads on, the
+					// merge must not end in a clean io.EOF
+					for again := 0; again < total+3; again++ {
+						if _, err2 := m.Read(); err2 == io.EOF {
+							r.Violate("eof-after-error", "%s: Read returned %v after %d records; reading on, the merger later returned io.EOF as if every input had ended cleanly", cfg, err, count)
+							return
+						}
+					}
+				}
 				return
 			}
 			if rec == nil {
@@ -390,8 +416,11 @@ func c18Run(c core.Case) *core.Result {
 		return r
 	}
 	r.Count("records_merged", int64(count))
-	if failInput >= 0 && fa != nil {
+	if failInput >= 0 && (fa != nil || corrupt) {
 		r.Count("failing_input_cases", 1)
+		if corrupt {
+			r.Count("failing_input_cases_corrupt_record", 1)
+		}
 		if finalErr == io.EOF {
 			r.Violate("error-dropped", "%s: input %d fails at record %d but the merger ended with io.EOF after %d records (the failure was never reported)", cfg, failInput, failRec, count)
 		}
